@@ -27,3 +27,27 @@ func VerifWriteFile(name string, data []byte, perm os.FileMode) error {
 	verifCrashPoint("token:written")
 	return err
 }
+
+// The other ways a token writer can be spelled (a refactoring of options.go must not leave the check without its
+// crash points): each call gets the instants before and after it.
+
+func VerifOpenFile(name string, flag int, perm os.FileMode) (*os.File, error) {
+	verifCrashPoint("token:before-open")
+	f, err := os.OpenFile(name, flag, perm)
+	verifCrashPoint("token:after-open")
+	return f, err
+}
+
+func VerifCreate(name string) (*os.File, error) {
+	verifCrashPoint("token:before-open")
+	f, err := os.Create(name)
+	verifCrashPoint("token:after-open")
+	return f, err
+}
+
+func VerifRename(oldpath, newpath string) error {
+	verifCrashPoint("token:before-rename")
+	err := os.Rename(oldpath, newpath)
+	verifCrashPoint("token:after-rename")
+	return err
+}
